@@ -1024,11 +1024,29 @@ fn c04_aggregate(acc: &Acc) -> Option<V> {
 // ------------------------------------------------------------------ C05
 
 fn c05_case(ctx: &Ctx, case: u64, acc: &mut Acc) -> Verdict {
-    let mut r = Rng64::derive(ctx.seed, 0xC05, case);
+    c05_inner(ctx, case, acc, false)
+}
+
+/// The regime of the stock configurations, concentrated: members started at the same instant (their periodic
+/// timers are aligned), an announce-to-down period longer than the time a member needs to declare an
+/// unreachable peer down, symmetric splits. After the heal every member is told it is down in the same round
+/// trip, everybody renews at once, every datagram in flight is addressed to an identity that no longer exists:
+/// the members of one side lose each other too, and all of them are idle before the periodic task comes round
+/// again. They must find each other all the same.
+fn c05_lockstep(ctx: &Ctx, case: u64, acc: &mut Acc) -> Verdict {
+    c05_inner(ctx, case, acc, true)
+}
+
+fn c05_inner(ctx: &Ctx, case: u64, acc: &mut Acc, lockstep: bool) -> Verdict {
+    let mut r = Rng64::derive(ctx.seed, if lockstep { 0xC05C } else { 0xC05 }, case);
     let nmax = if ctx.tier == Tier::Quick { 6 } else { 10 };
     let n = r.range(3, nmax) as usize;
     let p = 3 * R;
-    let a_periods = *r.pick(&[1u64, 2, 4]);
+    // the announce-to-down period: shorter than the time a member needs to declare an unreachable peer down
+    // (suspect_to_down_after is (2n+1) periods here), or - as in the stock Config::new_lan/new_wan, where it is an
+    // order of magnitude longer - longer than that, so that members who lose each other after the heal are all
+    // idle before the periodic task comes round again
+    let a_periods = if lockstep { 2 * n as u64 + 3 + r.range(1, 12) } else { *r.pick(&[1u64, 2, 4, 2 * n as u64 + 6]) };
     let cfg = Cfg {
         p,
         r: R,
@@ -1045,7 +1063,7 @@ fn c05_case(ctx: &Ctx, case: u64, acc: &mut Acc) -> Verdict {
     };
     let sim_seed = r.next();
     // joins staggered (timers of different members out of phase) or all at the same instant (aligned timers)
-    let join = *r.pick(&[Join::SeqToFirst, Join::SeqToFirst, Join::BurstToFirst, Join::Chain]);
+    let join = if lockstep { *r.pick(&[Join::BurstToFirst, Join::Chain, Join::BurstToRandom]) } else { *r.pick(&[Join::SeqToFirst, Join::SeqToFirst, Join::BurstToFirst, Join::Chain]) };
     // a third of the cases with latencies up to 0.9 rtt (indirect probes routinely in play)
     let lat = if Rng64::derive(ctx.seed, 0xC05A, case).chance(1, 3) { (1, R * 9 / 10) } else { (1, R / 4) };
     let Some(mut f) = formed_with(sim_seed, n, &cfg, Renew::Bump, lat, join, acc)? else {
@@ -1055,7 +1073,7 @@ fn c05_case(ctx: &Ctx, case: u64, acc: &mut Acc) -> Verdict {
     acc.tally(&format!("c05_join/{join:?}"), 1);
     acc.tally(if lat.1 > R / 4 { "c05_latency/below_0.9_rtt" } else { "c05_latency/below_rtt_quarter" }, 1);
     let mut nop = |_: &Sim, _: usize, _: &CallRec| -> Result<(), V> { Ok(()) };
-    let asymmetric = case % 5 == 4;
+    let asymmetric = !lockstep && case % 5 == 4;
     let t0 = f.sim.now;
     let mut part = vec![0u8; n];
     let shape;
@@ -1069,7 +1087,7 @@ fn c05_case(ctx: &Ctx, case: u64, acc: &mut Acc) -> Verdict {
         shape = format!("asymmetric victim={victim} outbound_lost={out} inbound_lost={inn}");
     } else {
         // every split shape with at least two members on one side: side sizes 1..n-1, membership chosen by seed
-        let side1 = 1 + (case as usize / 5) % (n - 1);
+        let side1 = if lockstep { (n / 2).max(1) + (case as usize % 2) * (n % 2) } else { 1 + (case as usize / 5) % (n - 1) };
         let mut idx: Vec<usize> = (0..n).collect();
         r.shuffle(&mut idx);
         for &i in idx.iter().take(side1) {
@@ -1352,6 +1370,7 @@ pub fn c05() -> Check {
         required: &["partitions_healed", "instances_renewed", "split_cases", "asymmetric_cases"],
         workloads: vec![
             Workload { name: "partition", f: c05_case, quick: 16_000, thorough: 200_000, flav: Flav::Checked },
+            Workload { name: "lockstep", f: c05_lockstep, quick: 16_000, thorough: 200_000, flav: Flav::Checked },
             Workload { name: "repartition", f: c05_repartition, quick: 2_400, thorough: 20_000, flav: Flav::Checked },
         ],
         exhaustive: false,
